@@ -456,6 +456,19 @@ func phiOf(m map[string]*Term) *Term {
 
 // simplifyField projects coin(d,a).Amount etc.
 func simplifyField(x *Term, name string) *Term {
+	// x/nft keeps a class under its id and a token under (class id, id): the record read
+	// by an id carries that id
+	if x.Op == "extract" && x.Name == "0" && len(x.Args) == 1 && x.Args[0].Op == "call" {
+		c := x.Args[0]
+		switch {
+		case c.Name == "sdknft.Keeper.GetClass" && len(c.Args) == 2 && name == "Id":
+			return c.Args[1]
+		case c.Name == "sdknft.Keeper.GetNFT" && len(c.Args) == 3 && name == "Id":
+			return c.Args[2]
+		case c.Name == "sdknft.Keeper.GetNFT" && len(c.Args) == 3 && name == "ClassId":
+			return c.Args[1]
+		}
+	}
 	if x.Op == "call" && x.Name == "coin" && len(x.Args) == 2 {
 		switch name {
 		case "Denom":
@@ -501,8 +514,14 @@ func (ts *Terms) field(x *Term, name string) *Term {
 	if f == nil || f.Blocks == nil || !isIrismodFunc(f) || f.Parent() != nil || frameDepth(c.fr) >= 12 || onChain(c.fr, f) {
 		return simplifyField(x, name)
 	}
+	// an exported helper keeps its name in the vocabulary; only a field that is a plain
+	// function of its arguments (the id of the record it loads by id) is read through it
+	exported := false
 	if n := f.Name(); n == "" || !(n[0] >= 'a' && n[0] <= 'z') {
-		return simplifyField(x, name)
+		if n == "" {
+			return simplifyField(x, name)
+		}
+		exported = true
 	}
 	nfr := &Frame{Fn: f, Parent: c.fr, Call: c.src, Depth: frameDepth(c.fr) + 1}
 	m := map[string]*Term{}
@@ -519,6 +538,9 @@ func (ts *Terms) field(x *Term, name string) *Term {
 		}
 		p := simplifyField(rt, name)
 		if p.Op == "field" && len(p.Args) == 1 && p.Args[0] == rt {
+			return simplifyField(x, name)
+		}
+		if exported && (p.Op == "const" || hasOp(p, "call", "extract", "phi", "alloc", "global")) {
 			return simplifyField(x, name)
 		}
 		m[p.String()] = p
@@ -2155,4 +2177,22 @@ func (ts *Terms) nestedLiteral(fa *ssa.FieldAddr, fr *Frame, depth int) *Term {
 		t.Args = append(t.Args, mk("const", n), phiOf(fields[n]))
 	}
 	return t
+}
+
+// hasOp: some node of t has one of the given operators.
+func hasOp(t *Term, ops ...string) bool {
+	if t == nil {
+		return false
+	}
+	for _, o := range ops {
+		if t.Op == o {
+			return true
+		}
+	}
+	for _, a := range t.Args {
+		if hasOp(a, ops...) {
+			return true
+		}
+	}
+	return false
 }
